@@ -31,6 +31,16 @@ var engineAssumptions = []string{
 
 var checks = []Check{
 	{
+		ID: "C03", Title: "on a stable cluster the proxy behaves like a single Redis server", Level: "model_checking",
+		LevelText: "explicit-state BFS over command programs (depth 3-4 quick, 4-5 thorough; ~40 commands covering every handler over 4 colliding keys; 1 or 2 connections; 5 layouts of 3 slot groups on 1-3 nodes) through the real proxy (sessions, upstream, backend clients) on a virtual network against a mini Redis Cluster; each reply compared with a single-server reference, first delivery checked against slot ownership, zero redirections, final keyspaces equal; plus a sweep of binary/boundary-length keys and values through 7 write/read families",
+		Technique: "explicit-state BFS over operation histories of the real proxy stack under a controlled scheduler (default schedule), reference-model comparison in every state",
+		Assumptions: append([]string{"mini Redis Cluster + single-server reference interpreter (/verif/sim/cluster) written from the Redis 5.0 documentation; the same interpreter is used on both sides so the comparison checks routing, splitting and relaying", "default schedule only (the quantifier of C03 is programs x inputs x layouts)"}, engineAssumptions...),
+		Jobs: []Job{
+			{Pkg: "proc/redis", Scenarios: []string{"C03/programs"}, Shards: 16, QuickS: 100, ThoroughS: 900},
+			{Pkg: "proc/redis", Scenarios: []string{"C03/values"}, Shards: 16, QuickS: 60, ThoroughS: 300},
+		},
+	},
+	{
 		ID: "C17", Title: "hot restart hand-over ordered, acknowledged, robust to bad frames", Level: "fault_enumeration",
 		LevelText: "bounded-exhaustive enumeration over real unix sockets: every frame (12 types x payload 0..4100 x 13 declared lengths) through the real reader, full round trips through the real sender, every request sequence up to length 4/5 through the real Restarter with a scripted instance, and a first child dropped at every point (after k requests, mid-header, after a malformed frame) followed by a second child",
 		Technique: "bounded-exhaustive frame enumeration + fault-point enumeration over request histories on the real Restarter",
@@ -86,6 +96,9 @@ var checks = []Check{
 		ID: "SELFTEST", Title: "engine litmus tests", Level: "model_checking",
 		Rule:        "litmus programs with known outcome sets",
 		Assumptions: engineAssumptions,
-		Jobs: []Job{{Pkg: "verifrt/litmus", Scenarios: []string{"litmus"}, Shards: 1, QuickS: 60, ThoroughS: 120}},
+		Jobs: []Job{
+			{Pkg: "verifrt/litmus", Scenarios: []string{"litmus"}, Shards: 1, QuickS: 60, ThoroughS: 120},
+			{Pkg: "proc/redis", Scenarios: []string{"smoke"}, Shards: 1, QuickS: 60, ThoroughS: 120},
+		},
 	},
 }
